@@ -16,8 +16,19 @@ Definition test_trans_fun (kind : nat) (e : elem) : res dict :=
   | 3%nat => Err EValue                                  (* raises ValueError *)
   | 4%nat => Ok [(lit "a.b", VInt CInt 1); (lit "Tag", tagv)]
   | 5%nat => Ok [(lit "VM", VInt CInt (Z.of_nat (e_vm (fst e)))); (lit "Tag", tagv)]
-  | _ => Err ECrash                                      (* nibabel csareader on a blob that is not a CSA header *)
+  | _ => Err ECrash
   end.
+
+(** The default CSA translators.  nibabel's csareader and the Phoenix protocol parser are not modelled: what they
+    return for the CSA blobs the generator built is GENERATOR TRUTH carried by the case (function name, blob bytes,
+    expected dictionary); on any other blob csareader raises. *)
+Fixpoint csa_lookup (tbl : list (str * list N * dict)) (fname : str) (b : list N) : res dict :=
+  match tbl with
+  | [] => Err ECrash
+  | (f, b', d) :: rest => if str_eqb f fname && str_eqb b b' then Ok d else csa_lookup rest fname b
+  end.
+Definition csa_fun (tbl : list (str * list N * dict)) (fname : str) (e : elem) : res dict :=
+  match snd e with VBytes b => csa_lookup tbl fname b | _ => Err ECrash end.
 
 Record tspec := mk_tspec { ts_name : str; ts_tag : tag; ts_creator : str; ts_kind : nat }.
 
@@ -26,7 +37,9 @@ Record case := mk_case {
   k_trans : option (list tspec);                (* None = default_translators *)
   k_convs : option (list (str * converter));    (* None = default_conversions *)
   k_warn : bool;
-  k_gt : list (list N * option str);            (* get_text as observed, when chardet is installed; else [] *)
+  k_gt : list (list N * option str);            (* chardet's decoding of the byte strings, when chardet is installed; else [] *)
+  k_csa : list (str * list N * dict);           (* generator truth for the valid CSA blobs of the case *)
+  k_relax : list str;                           (* F12 situation (a translator bound to >= 2 elements): translator names whose keys are not compared *)
   k_ds : dataset;
   k_obs : res dict
 }.
@@ -42,7 +55,7 @@ Definition config_of (k : case) : config :=
     (match k_rules k with Some r => r | None => default_ignore_rules end)
     (match k_trans k with
      | Some l => map (fun s => mk_translator (ts_name s) (ts_tag s) (ts_creator s) (test_trans_fun (ts_kind s))) l
-     | None => default_translators (fun _ => test_trans_fun 99)
+     | None => default_translators (csa_fun (k_csa k))
      end)
     (match k_convs k with Some c => c | None => default_conversions end)
     (k_warn k)
@@ -95,18 +108,46 @@ Fixpoint str_list_eqb (a b : list str) : bool :=
   | _, _ => false
   end.
 
+Definition same_keys (a b : list str) : bool :=
+  Nat.eqb (length a) (length b) && forallb (fun x => existsb (str_eqb x) b) a.
+
 Definition decl_check (k : case) : bool :=
   match k_obs k with
   | Ok r =>
       let cfg := config_of k in let ds := k_ds k in
       if names_wf ds && tags_nodupb (map etag ds) && no_suffix_clash ds && no_dot_keys ds
          && trans_names_dot_free cfg && bound_once cfg ds
-      then str_list_eqb (map fst r) (d_expected_keys cfg ds)
+      then same_keys (d_expected_keys cfg ds) (map fst r)      (* as sets: the property does not speak of order *)
       else true
   | Err _ => true
   end.
 
-Definition check (k : case) : bool :=
-  inputs_ok (k_ds k) && res_eqb dict_eqb (model k) (k_obs k) && decl_check k.
+(** In the F12 situation (one translator bound to two or more elements of one dataset) the model describes what the
+    code does today (the last translation wins).  The property does not prescribe that, and a repair may change it:
+    there the keys that begin with a translator name are left to the oracle (which recognises F12 exactly), and a
+    refusal is accepted. *)
+Fixpoint strip_val (names : list str) (v : val) {struct v} : val :=
+  match v with
+  | VDict kvs => VDict (flat_map (fun kv => if existsb (fun n => prefixb n (fst kv)) names then []
+                                            else [(fst kv, strip_val names (snd kv))]) kvs)
+  | VMulti c l => VMulti c (map (strip_val names) l)
+  | _ => v
+  end.
+Definition strip_dict (names : list str) (d : dict) : dict :=
+  match strip_val names (VDict d) with VDict d' => d' | _ => d end.
+
+(** raised / not raised (the property names no exception class); results as maps *)
+Definition agree (relax : list str) (m o : res dict) : bool :=
+  match m, o with
+  | Ok a, Ok b => match relax with [] => dict_eqb a b | _ => dict_eqb (strip_dict relax a) (strip_dict relax b) end
+  | Err _, Err _ => true
+  | Ok _, Err _ => match relax with [] => false | _ => true end
+  | _, _ => false
+  end.
+
+(** [inputs_ok] (pydicom facts) is NOT part of the verdict: a pydicom that presents values differently is not a
+    defect of the extractor.  It is evaluated by [facts] for the evidence only. *)
+Definition check (k : case) : bool := agree (k_relax k) (model k) (k_obs k) && decl_check k.
+Definition facts (k : case) : bool := inputs_ok (k_ds k).
 
 Definition show (k : case) := model k.
